@@ -19,7 +19,12 @@ RULE = ("cases: every operation sequence up to length n (quick 2, thorough 3) ov
         "of length <=40 over 4 keys, and immutable QueryParams/FormData/MultiMapping views of the same pairs; "
         "non-trivial = at least one operation changes the pair list or raises")
 TRUSTED = ["model of Python's insertion-ordered dict as an association list and of the collections.abc.MutableMapping mix-in "
-           "methods (pop, popitem, setdefault, update, clear)"]
+           "methods (pop, popitem, setdefault, update, clear)",
+           "source-level tie for MultiMapping.getlist and MutableMultiMapping.append / __delitem__ / setlist / poplist / __setitem__: "
+           "tools/py2coq.py (Python ast -> Gallina, fail-closed; self._list a list of pairs and self._dict an insertion-ordered "
+           "dict that are threaded and returned, == on keys an argument) and coq/theories/Lib/PyList.v (the meaning given to "
+           "comprehensions, enumerate, reversed, item assignment and deletion, dict get/set/del; compared with the interpreter's "
+           "own list and dict on every run); theorems <method>_translated in C17/Translated.v, re-checked per method on every run"]
 ASSUMPTIONS = ["keys are hashable with value equality (ints in the cases)"]
 EXHAUSTIVE = {"quick": True, "thorough": True}
 
